@@ -282,3 +282,44 @@ Fixpoint first_blockdep_bad (hw : hwcfg) (prev : option kop) (evs : list event) 
       else first_blockdep_bad hw prev t i
   | _ :: t => first_blockdep_bad hw prev t i
   end.
+
+(* ------------------------------------------------------------------ statistics for the evidence *)
+(* consecutive kernel pairs seen / with BLOCKDEP > 0 / with BLOCKDEP > 0 and an operation-level
+   overlap of B's IFM or IFM2 with A's OFM (the pairs for which the job-level test decides) *)
+Definition pair_overlap (A B : kop) : bool :=
+  let '(ca, pa, ra) := A in
+  let '(cb, pb, rb) := B in
+  let ova := ofm_view ra in
+  let iv := ifm_view cb rb in
+  ((fv_region iv =? fv_region ova) && lists_meet (fm_segs iv) (fm_segs ova)) ||
+  (uses_ifm2 cb pb rb && (let v2 := ifm2_view rb in (fv_region v2 =? fv_region ova) && lists_meet (fm_segs v2) (fm_segs ova))).
+
+Fixpoint bd_stats (prev : option kop) (evs : list event) (acc : Z * Z * Z) : Z * Z * Z :=
+  match evs with
+  | [] => acc
+  | EOp code param r :: t =>
+      if code =? cmd0_NPU_OP_DMA_START then bd_stats prev t acc
+      else
+        let B := (code, param, r) in
+        let '(n, np, no) := acc in
+        let acc' := match prev with
+                    | Some A => (n + 1, (if 0 <? blockdep_of B then np + 1 else np),
+                                 (if (0 <? blockdep_of B) && pair_overlap A B then no + 1 else no))
+                    | None => acc end in
+        bd_stats (Some B) t acc'
+  | EWait code n :: t =>
+      if (code =? cmd0_NPU_OP_KERNEL_WAIT) && (n <=? 0) then bd_stats None t acc else bd_stats prev t acc
+  | _ :: t => bd_stats prev t acc
+  end.
+
+(* cross-queue: (operation, possibly unfinished operation of the other queue) pairs tested, waits seen *)
+Fixpoint cross_stats (c : hzcfg) (s : qstate hop) (p : list (qcmd hop)) (acc : Z * Z) : Z * Z :=
+  match p with
+  | [] => acc
+  | cmd :: t =>
+      let s' := qsim hop h_isdma (hz_max_dma c) (hz_max_kern c) s cmd in
+      match cmd with
+      | QIssue o => cross_stats c s' t (fst acc + Z.of_nat (length (if h_isdma o then q_kern s else q_dma s)), snd acc)
+      | _ => cross_stats c s' t (fst acc, snd acc + 1)
+      end
+  end.
